@@ -104,6 +104,9 @@ Definition fl_le0 (b : Z) : bool := (negb (fl_nan b) && (fl_sign b || Z.eqb (fl_
 Definition fl_gt1 (b : Z) : bool := (negb (fl_sign b) && negb (fl_nan b) && Z.ltb 4607182418800017408 (fl_mag b))%bool. (* 0x3FF0000000000000 *)
 (* x < 0 || 1 < x *)
 Definition fl_out01 (b : Z) : bool := (fl_lt0 b || fl_gt1 b)%bool.
+(* x > 0 && x <= 1 *)
+Definition fl_in_0_1 (b : Z) : bool :=
+  (negb (fl_nan b) && negb (fl_sign b) && negb (Z.eqb (fl_mag b) 0) && Z.leb (fl_mag b) 4607182418800017408)%bool.
 (* x >= 0 && x < 18446744073709551616.0 (0x43F0000000000000 = 2^64); -0.0 >= 0 holds *)
 Definition fl_in_u64 (b : Z) : bool :=
   (negb (fl_nan b) && (negb (fl_sign b) || Z.eqb (fl_mag b) 0) && Z.ltb (fl_mag b) 4895412794951729152)%bool.
@@ -281,7 +284,8 @@ Definition st_valid_miner (s : st_store) : bool :=
    Z.ltb 0 (st_z s "max_delegates") &&
    Z.leb 0 (st_z s "num_sharder_delegates_rewarded") &&
    Z.leb 0 (st_z s "num_miner_delegates_rewarded") &&
-   Z.leb 0 (st_z s "num_sharders_rewarded"))%bool.
+   Z.leb 0 (st_z s "num_sharders_rewarded") &&
+   fl_in_0_1 (st_f s "x_percent"))%bool.
 
 Definition st_sec : Z := 1000000000.
 
